@@ -253,6 +253,7 @@ func C07(p *engine.Prog, r *engine.Report) {
 	c07R4(p, r)
 	c07R5(p, r, "C07-R5")
 	r.Floor("C07-R5", 3, "god, height, diff")
+	c07R8(p, r)
 }
 
 func c07R2(p *engine.Prog, r *engine.Report) {
@@ -440,6 +441,7 @@ func c07R3(p *engine.Prog, r *engine.Report) {
 	}
 	r.Floor("C07-R6", 3, "Signature, Upgrade, TurnOffline")
 	// ---------------- R7: quorum inputs
+	subChainOnCheckStateRule(p, r, "C07-R7")
 	sameCommitteePopulationRule(p, r, "C07-R7")
 	deletedArmCompleteRule(p, r, "C07-R7")
 	r.Floor("C07-R7", 4, "population + containers")
@@ -513,4 +515,122 @@ func c07R5(p *engine.Prog, r *engine.Report, rule string) {
 		okU = okU && len(g) > 0
 	}
 	r.Check(okU, rule, "RefreshIfUpdated|identity-update blocks apply the given diff", p.Pos(f.Pos()), "UpdateFromIdentityStateDiff(diff) unless the IdentityUpdate flag is unset", "an identity-update block can leave the validator view unchanged")
+}
+
+// c07R8: who counts as an approved committee member is decided per drawn slot by that slot's own
+// record: a plain address by its own discrimination flag, a delegator's pool by the pool record.
+func c07R8(p *engine.Prog, r *engine.Report) {
+	f := mustFunc(p, r, "core/validators", "ValidatorsCache.determineValidators")
+	if f == nil {
+		return
+	}
+	r.Fn(engine.FuncName(f))
+	rets := engine.Returns(f)
+	if len(rets) == 0 || len(rets[0].Results) < 2 {
+		r.Und("C07-R8", "determineValidators|approved set", p.Pos(f.Pos()), "second result not found")
+		return
+	}
+	approved := engine.Origin(rets[0].Results[1])
+	under := func(v ssa.Value) ssa.Value {
+		v = engine.Unwrap(v)
+		if mi, ok := v.(*ssa.MakeInterface); ok {
+			return engine.Unwrap(mi.X)
+		}
+		return v
+	}
+	// ownFlag(cond, x): cond is v.discriminatedAddresses.Contains(x), directly or through a helper
+	// whose only result is that call on its parameter
+	var ownFlag func(cond ssa.Value, x ssa.Value, depth int) bool
+	ownFlag = func(cond ssa.Value, x ssa.Value, depth int) bool {
+		c, ok := engine.Unwrap(cond).(*ssa.Call)
+		if !ok {
+			return false
+		}
+		args := engine.CallArgs(c)
+		if engine.CallNameIs(c, "Contains") && len(args) >= 2 {
+			if _, isFld := loadOfField(args[0], "ValidatorsCache", "discriminatedAddresses"); isFld {
+				for _, a := range args[1:] {
+					if under(a) == x || engine.Origin(under(a)) == engine.Origin(x) {
+						return true
+					}
+					// variadic: the element stored into the argument slice
+					for v := range engine.BackSlice(a, engine.DefaultSlice) {
+						if under(v) == x {
+							return true
+						}
+					}
+				}
+			}
+			return false
+		}
+		if cal := c.Common().StaticCallee(); cal != nil && depth < 2 && cal.Blocks != nil && len(engine.Returns(cal)) == 1 {
+			// helper(v, addr): its single result is the own-flag test on the parameter it received x in
+			for i, a := range c.Common().Args {
+				if under(a) == x && i < len(cal.Params) {
+					return ownFlag(engine.Returns(cal)[0].Results[0], cal.Params[i], depth+1)
+				}
+			}
+		}
+		return false
+	}
+	poolFlag := func(cond ssa.Value, x ssa.Value) bool {
+		c, ok := engine.Unwrap(cond).(*ssa.Call)
+		if !ok || !engine.CallNameIs(c, "discriminated") {
+			return false
+		}
+		for v := range engine.BackSlice(engine.CallArgs(c)[0], engine.DefaultSlice) {
+			if lk, isLk := v.(*ssa.Lookup); isLk {
+				if _, isPools := loadOfField(lk.X, "ValidatorsCache", "pools"); isPools && engine.Unwrap(lk.Index) == x {
+					return true
+				}
+			}
+		}
+		return false
+	}
+	n := 0
+	for _, c := range engine.Calls(f) {
+		if !engine.CallNameIs(c, "Add") {
+			continue
+		}
+		args := engine.CallArgs(c)
+		if len(args) < 2 || engine.Origin(args[0]) != approved {
+			continue
+		}
+		x := under(args[1])
+		for v := range engine.BackSlice(args[1], engine.DefaultSlice) {
+			if _, isMI := v.(*ssa.MakeInterface); isMI {
+				x = under(v)
+			}
+		}
+		// delegatee arm: x comes out of the delegations lookup
+		fromDelegations := false
+		for v := range engine.BackSlice(x, engine.DefaultSlice) {
+			if lk, isLk := v.(*ssa.Lookup); isLk {
+				if _, isD := loadOfField(lk.X, "ValidatorsCache", "delegations"); isD {
+					fromDelegations = true
+				}
+			}
+		}
+		n++
+		g := guardsWhere(f, func(cond ssa.Value) (bool, bool, string) {
+			cnd, neg := stripNot(cond)
+			if fromDelegations {
+				if poolFlag(cnd, x) {
+					return true, neg, "!pools[delegatee].discriminated()"
+				}
+				return false, false, ""
+			}
+			if ownFlag(cnd, x, 0) {
+				return true, neg, "!discriminatedAddresses.Contains(addr)"
+			}
+			return false, false, ""
+		})
+		arm := map[bool]string{true: "a delegator's pool is approved by the pool record of that very pool", false: "a plain slot is approved by the address's own discrimination flag"}[fromDelegations]
+		r.Check(len(g) > 0 && engine.OnlyThroughPass(f, c.Block(), g), "C07-R8", uniq(r, "determineValidators|"+arm), p.InstrPos(c), "behind the flag of the member being added",
+			"the approved set gains a member without testing that member's own record (another predicate, another key, or none): an ineligible (discriminated) identity counts towards the quorum, and nodes disagree on which certificates are valid")
+	}
+	if n == 0 {
+		r.Und("C07-R8", "determineValidators|approved.Add", p.Pos(f.Pos()), "no addition to the approved set found")
+	}
+	r.Floor("C07-R8", 2, "plain arm + delegator arm")
 }
